@@ -16,6 +16,8 @@ inductive Stmt where
   | op (slot : Nat) (g : GOp)
   | drop (slot : Nat)
   | count | keys
+  /-- lru: `lock_entries_unlocked_for_at_least(0)`; the guards are dropped again at once, in order -/
+  | expire
 deriving Repr
 
 /-- what happens after a `release` section of a thread -/
@@ -23,6 +25,8 @@ inductive Cont where
   | prog
   /-- inside the cooperative eviction callback: remaining candidates, then the prelude of the lock call again -/
   | evict (rest : List Nat) (slot : Nat) (v : Variant) (k n : Nat)
+  /-- dropping the guards an expiry call returned: the remaining ones, then the program goes on -/
+  | expired (rest : List Nat)
 deriving Repr
 
 inductive Park where
@@ -37,6 +41,7 @@ inductive Park where
   | gCleanup (slot : Nat)
   | gRelease (h : Nat) (c : Cont)
   | gCount | gKeys
+  | gExpire
   | done
 deriving Repr
 
@@ -47,6 +52,7 @@ inductive Event where
   | op (slot : Nat) (o : Out)
   | count (o : Out) | keys (o : Out)
   | ev (cands : List (Nat × Nat))
+  | exp (guards : List (Nat × Nat))
   | skip
   | fail (o : Out)
 deriving Repr
@@ -123,6 +129,7 @@ def advance (s : State) (t : Nat) (th : Thread) (evs : List Event) : Nat → Sta
         else advance s t { th with prog := rest } (evs ++ [.skip]) fuel
       | .count => (s, { th with prog := rest, park := .gCount }, evs)
       | .keys => (s, { th with prog := rest, park := .gKeys }, evs)
+      | .expire => (s, { th with prog := rest, park := .gExpire }, evs)
 
 def gotGuard (s : State) (t : Nat) (th : Thread) (slot : Nat) (evs : List Event) : State × Thread × List Event :=
   advance s t { th with got := insertSlot slot th.got } (evs ++ [.lock slot true]) (th.prog.length + th.got.length + th.pend.length + 3)
@@ -134,6 +141,12 @@ def processCands (s : State) (th : Thread) (cands : List Nat) (slot : Nat) (v : 
   | [] => (s, { th with park := .gLookup slot v k (some n) }, evs)
   | c :: rest =>
     ((stamp (gop s c .remove).1 c).1, { th with park := .gRelease c (.evict rest slot v k n) }, evs)
+
+/-- the guards of an expiry call are dropped one after the other; then the program goes on -/
+def processExpired (s : State) (t : Nat) (th : Thread) (gs : List Nat) (evs : List Event) : State × Thread × List Event :=
+  match gs with
+  | [] => advance s t th evs (th.prog.length + th.got.length + th.pend.length + 3)
+  | c :: rest => ((stamp s c).1, { th with park := .gRelease c (.expired rest) }, evs)
 
 def isFail : Out → Bool
   | .panic _ => true
@@ -211,6 +224,13 @@ def stepThread (s : State) (t : Nat) (th : Thread) : State × Thread × List Eve
     match c with
     | .prog => advance r.1 t th [] (fuelOf th)
     | .evict rest slot v k n => processCands r.1 th rest slot v k n []
+    | .expired rest => processExpired r.1 t th rest []
+  | .gExpire =>
+    let r := step s (.expire 0 (List.range' (candBase t th.ncand) supplyLen))
+    match r.2 with
+    | .list gs =>
+      processExpired r.1 t { th with ncand := th.ncand + gs.length } gs [Event.exp (gs.map fun c => (c, keyOf r.1 c))]
+    | o => (r.1, { th with park := .done }, [.fail o])
   | .gCount => advance (count s).1 t th [.count (count s).2] (fuelOf th)
   | .gKeys => advance (keys s).1 t th [.keys (keys s).2] (fuelOf th)
   | .done => (s, th, [])
@@ -229,7 +249,7 @@ def runnable (s : State) (t : Nat) (th : Thread) : Bool :=
 def statusChar (s : State) (t : Nat) (th : Thread) : String :=
   match th.park with
   | .start => "S"
-  | .gLookup .. | .gLookupPoll .. | .gCancel _ | .gCleanup _ | .gRelease .. | .gCount | .gKeys => "G"
+  | .gLookup .. | .gLookupPoll .. | .gCancel _ | .gCleanup _ | .gRelease .. | .gCount | .gKeys | .gExpire => "G"
   | .key .. | .keyPoll _ => "K"
   | .blocked _ => if runnable s t th then "W" else "B"
   | .done => "D"
